@@ -179,10 +179,13 @@ def _r08_2_then_form(ctx, prog, crate, rec, x, b):
     if neg:
         pol = not pol
     # barrier exactly when aux != 0  (Eq(0, aux) false), or thread_count > 1 / != 1
-    ok = atom is not None and ((atom[0] == "Eq" and ("int", 0) in atom[1:] and aux in atom[1:] and pol is False) or
-                               (atom[0] == "Eq" and ("int", 1) in atom[1:] and "thread_count" in str(atom) and pol is False) or
-                               (atom[0] == "Lt" and atom[1] == ("int", 1) and "thread_count" in str(atom[2]) and pol is True) or
-                               (atom[0] == "Lt" and atom[1] == ("int", 0) and atom[2] == aux and pol is True))
+    # the thread count itself, as the expression aux is built from: aux = tcx - 1
+    tcx = aux[1][0][0] if aux[0] == "lin" and len(aux[1]) == 1 else None
+    ok = atom is not None and tcx is not None and (
+        (atom[0] == "Eq" and set(atom[1:]) == {("int", 0), aux} and pol is False) or        # aux != 0
+        (atom[0] == "Lt" and atom[1] == ("int", 0) and atom[2] == aux and pol is True) or       # aux > 0
+        (atom[0] == "Eq" and set(atom[1:]) == {("int", 1), tcx} and pol is False) or        # thread_count != 1
+        (atom[0] == "Lt" and atom[1] == ("int", 1) and atom[2] == tcx and pol is True))         # thread_count > 1
     ctx.check(ok, "R08.2", [b.path, "barrier-iff-multi-thread"], "the barrier exists when %s%s; expected exactly when more than one thread takes part" % ("" if pol else "not ", show(atom) if atom else show(cond)), th.line())
     ctx.ok("R08.2", b.path + "|no-barrier-when-single")
     ctx.ok("R08.2", b.path + "|none-when-single")
